@@ -171,3 +171,101 @@ def ok_sequences(prog, body, max_visits=2, limit=20000):
             continue
         out.append((p, c, path_emissions(prog, p)))
     return out
+
+
+# --------------------------------------------------------------------------------------
+# symbolic byte stream: a spelling-independent normal form of an emission sequence
+# --------------------------------------------------------------------------------------
+
+def _strip_refs(t):
+    from . import terms as T
+    return T.peel(t, payloads=False)
+
+
+def sym_bytes(ems):
+    """Normal form of an emission list as a list of items
+         ("c", byte)                 a constant byte
+         ("le", term, i, width)      byte i of the little-endian encoding of integer `term` in `width` bytes
+         ("byte", term)              one byte with a non-constant value
+         ("blob", term)              all bytes of a slice-valued term (length not known statically)
+         ("lenenc_int", term) / ("lenenc_str", term) / ("value", which, term) / ("call", callee)
+         ("end",) / ("flush",)
+    so that `write_u8(0xff); write_u16::<LE>(x); write_u8(b'#')` and `write_all(&[0xff, x.to_le_bytes()[0], x.to_le_bytes()[1], b'#'])`
+    (and constants hoisted into named items, split or merged writes) compare equal."""
+    import re as _re2
+    from . import terms as T
+    from .prog import _cint as ci
+    out = []
+
+    def int_bytes(term, w):
+        v = ci(term)
+        if v is not None:
+            return [("c", b) for b in (v % (1 << (8 * w))).to_bytes(w, "little")]
+        return [("le", term, i, w) for i in range(w)]
+
+    def elem(e):
+        v = ci(e)
+        if v is not None:
+            return ("c", v & 0xFF)
+        if isinstance(e, tuple) and e[0] == "index":
+            src = _strip_refs(e[1])
+            k = ci(e[2])
+            if T.is_call(src, r"core::num::<impl [ui](8|16|32|64|128|size)>::to_le_bytes$") and k is not None:
+                m = _re2.search(r"<impl [ui](8|16|32|64|128|size)>::to_le_bytes$", src[1])
+                w = 8 if m.group(1) == "size" else int(m.group(1)) // 8
+                return ("le", src[2][0], k, w)
+        return ("byte", e)
+
+    for e in ems:
+        if e.kind == "fixed":
+            out += int_bytes(e.value, e.width)
+        elif e.kind == "raw":
+            cb = e.const_bytes()
+            if cb is not None:
+                out += [("c", b) for b in cb]
+                continue
+            v = _strip_refs(e.value)
+            # whole-array views: &arr, &arr[..], arr.as_slice()
+            while isinstance(v, tuple) and v[0] == "call" and _re2.search(r"(Index<.*>>::index|Index::index|as_slice|Deref>::deref)$", v[1]) and (
+                    len(v[2]) == 1 or (isinstance(v[2][1], tuple) and v[2][1][0] == "agg" and (v[2][1][2] or "").endswith("RangeFull"))):
+                v = _strip_refs(v[2][0])
+            if isinstance(v, tuple) and v[0] == "agg" and v[1] == "array":
+                out += [elem(x) for x in v[4]]
+            elif T.is_call(v, r"core::num::<impl [ui](8|16|32|64|128|size)>::to_le_bytes$"):
+                m = _re2.search(r"<impl [ui](8|16|32|64|128|size)>::to_le_bytes$", v[1])
+                w = 8 if m.group(1) == "size" else int(m.group(1)) // 8
+                out += int_bytes(v[2][0], w)
+            elif isinstance(v, tuple) and v[0] == "repeat" and ci(v[1]) is not None and str(v[2]).isdigit():
+                out += [("c", ci(v[1]) & 0xFF)] * int(v[2])
+            else:
+                out.append(("blob", e.value))
+        elif e.kind in ("lenenc_int", "lenenc_str"):
+            out.append((e.kind, e.value))
+        elif e.kind == "value":
+            out.append(("value", e.callee, e.value))
+        elif e.kind == "call":
+            out.append(("call", e.callee))
+        elif e.kind == "end_packet":
+            out.append(("end",))
+        elif e.kind == "flush":
+            out.append(("flush",))
+    return out
+
+
+def sym_str(items):
+    from .prog import term_str
+    o = []
+    for it in items:
+        if it[0] == "c":
+            o.append("%02x" % it[1])
+        elif it[0] == "le":
+            o.append("le%d[%d](%s)" % (it[3] * 8, it[2], term_str(it[1])[:40]))
+        elif it[0] in ("byte", "blob", "lenenc_int", "lenenc_str"):
+            o.append("%s(%s)" % (it[0], term_str(it[1])[:40]))
+        elif it[0] == "value":
+            o.append("value:%s" % it[1])
+        elif it[0] == "call":
+            o.append("call(%s)" % it[1].split("::")[-1])
+        else:
+            o.append(it[0])
+    return " ".join(o)
